@@ -34,6 +34,7 @@ type sinkInfo struct {
 	first   bool // first sink of its block
 	isBsl   bool // constant backslash
 	hasNext bool // another sink follows in the same block
+	multi   bool // constant text of several bytes: set holds the bytes not protected by a backslash inside it
 }
 
 // bufferOf: the strings.Builder local of a scanner.
@@ -55,7 +56,7 @@ func isSinkCall(call *ssa.Call, buf *ssa.Alloc) bool {
 		return false
 	}
 	switch cal.Name() {
-	case "WriteByte", "WriteRune", "WriteString":
+	case "WriteByte", "WriteRune", "WriteString", "Write":
 		return true
 	}
 	return false
@@ -115,10 +116,45 @@ func collectSinks(lf *lexFacts, cx *lexCtx) []sinkInfo {
 			arg := call.Call.Args[1]
 			si := sinkInfo{call: call}
 			switch {
+			case isConstByteLike(arg) && constTextLen(arg) > 1:
+				// constant text: walk it as the consumer of the literal will, pairing each backslash with its successor
+				si.class, si.multi = "const", true
+				str := constant.StringVal(unwrap(arg).(*ssa.Const).Value)
+				i := 0
+				if prev != nil && prev.isBsl && !prev.paired {
+					i = 1 // first byte completes the pair opened by the previous sink
+				}
+				for i < len(str) {
+					if str[i] == '\\' {
+						if i+1 < len(str) {
+							i += 2
+							continue
+						}
+						si.isBsl = true
+						break
+					}
+					si.set.add(str[i])
+					i++
+				}
 			case isConstByteLike(arg):
 				si.class = "const"
 				si.set = constBytes(arg)
 				si.isBsl = endsInLoneBackslash(arg)
+			case isByteSlice(arg.Type()):
+				// Write(p): every byte of p
+				si.set = lf.contentSet(st, arg)
+				switch arg.(type) {
+				case *ssa.Phi:
+					si.class = "verbatim"
+				case *ssa.Call:
+					if _, isAppend := isBuiltinCall(arg, "append"); isAppend {
+						si.class = "verbatim"
+					} else {
+						si.class = "computed"
+					}
+				default:
+					si.class = "computed"
+				}
 			default:
 				si.set = lf.valSet(st, cx, arg)
 				if st.alias[unwrap(arg)] == 1 || fromByteSlice(arg) {
@@ -128,7 +164,7 @@ func collectSinks(lf *lexFacts, cx *lexCtx) []sinkInfo {
 					si.class = "computed"
 				}
 			}
-			if prev != nil && prev.isBsl && !prev.paired {
+			if prev != nil && prev.isBsl && !prev.paired && !si.multi {
 				si.paired = true
 			}
 			si.first = prev == nil
@@ -345,6 +381,28 @@ func runC07(c *Ctx) {
 				continue
 			}
 			D := cl.printer.delim
+			if buf := resultBuilder(cx.fn); buf != nil && !seenShared["uses:"+cx.fn.Name()] {
+				seenShared["uses:"+cx.fn.Name()] = true
+				n := 0
+				for _, r := range *buf.Referrers() {
+					okUse := false
+					switch x := r.(type) {
+					case *ssa.DebugRef:
+						okUse = true
+					case *ssa.Call:
+						if cal := x.Call.StaticCallee(); cal != nil && pkgPathOf(cal) == "strings" && len(x.Call.Args) >= 1 && x.Call.Args[0] == ssa.Value(buf) {
+							switch cal.Name() {
+							case "WriteByte", "WriteRune", "WriteString", "Write", "String", "Len", "Grow", "Cap":
+								okUse = true
+							}
+						}
+					}
+					if !okUse {
+						n++
+						c.unres(fmt.Sprintf("%s: result buffer used outside the analysed sinks #%d", cx.fn.Name(), n), r.Pos(), "the scanner's buffer is used by %s: bytes could reach the literal without passing a checked sink", r.String())
+					}
+				}
+			}
 			for _, si := range collectSinks(lf, cx) {
 				esc := si.escape
 				if esc == "" {
@@ -362,6 +420,16 @@ func runC07(c *Ctx) {
 				}
 				danger := setOf(D).minus(cl.printer.neutral)
 				switch {
+				case si.class == "const" && si.multi:
+					bad := si.set.inter(danger.union(setOf('\n', '\r')))
+					switch {
+					case !bad.empty():
+						c.bad(key, si.call.Pos(), "writes %s unescaped into a literal that is printed between %q: the emitted literal ends early or is invalid", bad, string(rune(D)))
+					case si.isBsl && !si.hasNext:
+						c.bad(key, si.call.Pos(), "the constant text ends in a lone backslash: it escapes whatever follows (possibly the closing delimiter)")
+					default:
+						c.ok(key, si.call.Pos(), "constant text; bytes outside its backslash pairs: %s", si.set)
+					}
 				case si.paired:
 					c.ok(key, si.call.Pos(), "second byte of a preserved escape pair (a backslash was written immediately before): %s", si.set)
 				case si.class == "const" && si.isBsl:
@@ -909,4 +977,12 @@ func ruleScannerMemoryless(c *Ctx, lf *lexFacts) {
 	if n == 0 {
 		c.unres("scanner loops", token.NoPos, "no delimited scanner with a loop found")
 	}
+}
+
+func constTextLen(v ssa.Value) int {
+	k, ok := unwrap(v).(*ssa.Const)
+	if !ok || k.Value == nil || k.Value.Kind() != constant.String {
+		return 0
+	}
+	return len(constant.StringVal(k.Value))
 }
